@@ -323,6 +323,68 @@ impl<T> LinkedList<T> {
     }
 }
 
+/// Read-only accessors used by the external verification harness.
+#[cfg(futures_intrusive_verif)]
+impl<T> ListNode<T> {
+    /// Address of the previous node, if linked
+    pub fn verif_prev(&self) -> Option<*const ListNode<T>> {
+        self.prev.map(|p| p.as_ptr() as *const ListNode<T>)
+    }
+
+    /// Address of the next node, if linked
+    pub fn verif_next(&self) -> Option<*const ListNode<T>> {
+        self.next.map(|p| p.as_ptr() as *const ListNode<T>)
+    }
+}
+
+/// Read-only traversal used by the external verification harness.
+#[cfg(futures_intrusive_verif)]
+impl<T> LinkedList<T> {
+    /// Address of the head node
+    pub fn verif_head(&self) -> Option<*const ListNode<T>> {
+        self.head.map(|p| p.as_ptr() as *const ListNode<T>)
+    }
+
+    /// Address of the tail node
+    pub fn verif_tail(&self) -> Option<*const ListNode<T>> {
+        self.tail.map(|p| p.as_ptr() as *const ListNode<T>)
+    }
+
+    /// Visits the nodes from head to tail by following `next` links.
+    /// The walk is bounded, so that a corrupted list can not hang the caller.
+    pub fn verif_for_each(&self, f: &mut dyn FnMut(&ListNode<T>)) {
+        let mut current = self.head;
+        let mut steps = 0usize;
+        while let Some(node) = current {
+            if steps == 1 << 16 {
+                return;
+            }
+            steps += 1;
+            // Safety: Nodes in the list are alive as long as they are linked
+            let node_ref = unsafe { &*(node.as_ptr() as *const ListNode<T>) };
+            f(node_ref);
+            current = node_ref.next;
+        }
+    }
+
+    /// Visits the nodes from tail to head by following `prev` links.
+    /// The walk is bounded, so that a corrupted list can not hang the caller.
+    pub fn verif_for_each_rev(&self, f: &mut dyn FnMut(&ListNode<T>)) {
+        let mut current = self.tail;
+        let mut steps = 0usize;
+        while let Some(node) = current {
+            if steps == 1 << 16 {
+                return;
+            }
+            steps += 1;
+            // Safety: Nodes in the list are alive as long as they are linked
+            let node_ref = unsafe { &*(node.as_ptr() as *const ListNode<T>) };
+            f(node_ref);
+            current = node_ref.prev;
+        }
+    }
+}
+
 #[cfg(all(test, feature = "alloc"))] // Tests make use of Vec at the moment
 mod tests {
     use super::*;
